@@ -66,6 +66,7 @@ func init() {
 	reg("time.After", func(g *G, fr *Frame, fn *ssa.Function, a []Value) Value {
 		g.schedPoint(&Op{desc: "time.After", enabled: func() bool { return true }})
 		p := newTimer(g, a[0])
+		g.run.timerAt(p).viaAfter = true
 		return g.run.timerAt(p).ch
 	})
 	reg("(*time.Timer).Stop", func(g *G, fr *Frame, fn *ssa.Function, a []Value) Value {
@@ -108,4 +109,35 @@ func init() {
 	reg("(time.Duration).String", func(g *G, fr *Frame, fn *ssa.Function, a []Value) Value {
 		return Str{Segs: []Seg{{Q: "dur(" + showVal(a[0]) + ")"}}}
 	})
+}
+
+func init() {
+	// engine-only observations of the timer model (natively they return nothing)
+	regV("TimerDurations", func(g *G, a []Value) Value {
+		var out Slice
+		for _, t := range g.run.env.timers {
+			if len(t.resets) == 0 {
+				out = append(out, t.durFirst)
+			}
+			for _, d := range t.resets {
+				out = append(out, d)
+			}
+			if len(t.resets) > 0 {
+				out = append(out, t.durFirst)
+			}
+		}
+		return out
+	})
+	regV("ReadDeadlines", func(g *G, a []Value) Value {
+		var out Slice
+		for _, p := range g.run.env.pairs {
+			for _, e := range []*WSEnd{p.client, p.server} {
+				for _, d := range e.deadlines {
+					out = append(out, d)
+				}
+			}
+		}
+		return out
+	})
+	regV("TimersFired", func(g *G, a []Value) Value { return I64(int64(g.run.timersFired)) })
 }
